@@ -130,12 +130,84 @@ func readTree(dir string) (*node, error) {
 	return n, nil
 }
 
+// rewriter stands for a process the action left behind: the moment a
+// file registered in flips (path relative to base -> replacement bytes of
+// the same length) has been read to its end for the first time, it is
+// rewritten in place on the real file system.
+type rewriter struct {
+	base    string
+	flips   map[string]string
+	flipped map[string]bool
+}
+
+func (rw *rewriter) set(prefix string, flips map[string]string) {
+	rw.flips = map[string]string{}
+	rw.flipped = map[string]bool{}
+	for k, v := range flips {
+		rw.flips[prefix+k] = v
+	}
+}
+
+// rewritingDirectory passes everything through to the real local
+// directory, but hands out files that trigger the rewriter.
+type rewritingDirectory struct {
+	filesystem.DirectoryCloser
+	rw  *rewriter
+	rel string
+}
+
+func (d *rewritingDirectory) EnterDirectory(name path.Component) (filesystem.DirectoryCloser, error) {
+	c, err := d.DirectoryCloser.EnterDirectory(name)
+	if err != nil {
+		return nil, err
+	}
+	return &rewritingDirectory{DirectoryCloser: c, rw: d.rw, rel: d.rel + name.String() + "/"}, nil
+}
+
+func (d *rewritingDirectory) OpenRead(name path.Component) (filesystem.FileReader, error) {
+	f, err := d.DirectoryCloser.OpenRead(name)
+	if err != nil {
+		return nil, err
+	}
+	rel := d.rel + name.String()
+	if _, ok := d.rw.flips[rel]; !ok {
+		return f, nil
+	}
+	return &rewritingFile{FileReader: f, rw: d.rw, rel: rel}, nil
+}
+
+type rewritingFile struct {
+	filesystem.FileReader
+	rw  *rewriter
+	rel string
+}
+
+func (f *rewritingFile) ReadAt(p []byte, off int64) (int, error) {
+	n, err := f.FileReader.ReadAt(p, off)
+	alt := f.rw.flips[f.rel]
+	if !f.rw.flipped[f.rel] && n > 0 && off+int64(n) >= int64(len(alt)) {
+		f.rw.flipped[f.rel] = true
+		// Same inode, same length, other bytes.
+		if w, werr := os.OpenFile(filepath.Join(f.rw.base, filepath.FromSlash(f.rel)), os.O_WRONLY, 0); werr == nil {
+			w.WriteAt([]byte(alt), 0)
+			w.Close()
+		}
+	}
+	return n, err
+}
+
 // newNaiveDirectory opens dir through bb-storage's local directory and
-// wraps it in the real naive build directory.
-func newNaiveDirectory(dir string, c *fakeCAS) (builder.BuildDirectory, error) {
+// wraps it in the real naive build directory. If rw is not nil, files are
+// opened through the rewriter.
+func newNaiveDirectory(dir string, c *fakeCAS, rw *rewriter) (builder.BuildDirectory, error) {
+	var d filesystem.DirectoryCloser
 	d, err := filesystem.NewLocalDirectory(path.LocalFormat.NewParser(dir))
 	if err != nil {
 		return nil, err
+	}
+	if rw != nil {
+		rw.base = dir
+		d = &rewritingDirectory{DirectoryCloser: d, rw: rw}
 	}
 	return builder.NewNaiveBuildDirectory(
 		d,
